@@ -448,7 +448,7 @@ def h_amax(m, func, args, kwargs, out):
         if all(v.kind == "lin" and not v.mu and v.im is None and v.re.op == "const" for v in group):
             res[idx] = Val.const(max(float(v.re.data) for v in group))
             continue
-        if len(set(keys)) == 1:
+        if len(set(keys)) == 1 and group[0].kind == "lin":
             res[idx] = group[0]
             continue
         mv = m.ctx.max_atom(keys, float(realr[idx]))
